@@ -72,46 +72,48 @@ const (
 )
 
 type Node struct {
-	ID      int    `json:"id"`
-	CPUs    []int  `json:"cpus"`     // all CPUs (online and offline) of the node, as in cpulist (online only there)
-	MemKB   uint64 `json:"mem_kb"`   // MemTotal
-	FreeKB  uint64 `json:"free_kb"`  // MemFree
-	Normal  bool   `json:"normal"`   // has normal (non-movable) memory
-	Type    string `json:"type"`     // expected classification by the documented heuristic
-	Dist    []int  `json:"dist"`     // distance vector
-	Home    int    `json:"home"`     // for CPU-less nodes: the DRAM node it was attached next to (-1 otherwise)
-	Pkg     int    `json:"pkg"`      // package of the node's CPUs (-1 if CPU-less)
-	Die     int    `json:"die"`
+	ID     int    `json:"id"`
+	CPUs   []int  `json:"cpus"`    // all CPUs (online and offline) of the node, as in cpulist (online only there)
+	MemKB  uint64 `json:"mem_kb"`  // MemTotal
+	FreeKB uint64 `json:"free_kb"` // MemFree
+	Normal bool   `json:"normal"`  // has normal (non-movable) memory
+	Type   string `json:"type"`    // expected classification by the documented heuristic
+	Dist   []int  `json:"dist"`    // distance vector
+	Home   int    `json:"home"`    // for CPU-less nodes: the DRAM node it was attached next to (-1 otherwise)
+	Pkg    int    `json:"pkg"`     // package of the node's CPUs (-1 if CPU-less)
+	Die    int    `json:"die"`
 }
 
 type Machine struct {
-	Name     string `json:"name"`
-	Packages int    `json:"packages"`
-	Dies     int    `json:"dies"`  // per package
-	NodesPer int    `json:"nodes_per_die"`
-	Cores    int    `json:"cores"` // per node
-	Threads  int    `json:"threads"`
-	CPUs     []CPU  `json:"cpus"`
-	Nodes    []Node `json:"nodes"`
-	Isolated []int  `json:"isolated"`
-	Hybrid   bool   `json:"hybrid"`
-	Interleaved bool `json:"interleaved"`
+	Name        string `json:"name"`
+	Packages    int    `json:"packages"`
+	Dies        int    `json:"dies"` // per package
+	NodesPer    int    `json:"nodes_per_die"`
+	Cores       int    `json:"cores"` // per node
+	Threads     int    `json:"threads"`
+	CPUs        []CPU  `json:"cpus"`
+	Nodes       []Node `json:"nodes"`
+	Isolated    []int  `json:"isolated"`
+	Hybrid      bool   `json:"hybrid"`
+	Interleaved bool   `json:"interleaved"`
+	LegacyNames bool   `json:"legacy_names,omitempty"` // sysfs as written by pre-5.3 kernels: thread_siblings_list / core_siblings_list only
 }
 
 type Params struct {
 	Packages, Dies, NodesPerDie, CoresPerNode, Threads int
-	Interleaved  bool   // Intel-style numbering: sibling = id + ncores
-	L2Cluster    int    // cores per L2 cluster (1 = per core)
-	OfflineCPUs  int    // number of CPUs to take offline (whole threads, never cpu0)
-	IsolatedCPUs int    // number of isolated CPUs (whole cores taken from the end)
-	PMEMNodes    int    // number of CPU-less nodes bigger than DRAM average
-	HBMNodes     int    // number of CPU-less nodes smaller than DRAM average
-	MemlessNodes int    // CPU nodes without memory
-	MovableOnly  int    // number of special nodes with only movable memory
-	Hybrid       bool   // last half of cores of each package are E-cores (no HT)
-	FreqClasses  bool   // vary cpufreq / EPP to produce priority classes
-	DRAMMB       []int  // per-node DRAM size in MiB (cycled); default 4096
-	Asymmetric   bool   // asymmetric capacities
+	Interleaved                                        bool  // Intel-style numbering: sibling = id + ncores
+	L2Cluster                                          int   // cores per L2 cluster (1 = per core)
+	OfflineCPUs                                        int   // number of CPUs to take offline (whole threads, never cpu0)
+	IsolatedCPUs                                       int   // number of isolated CPUs (whole cores taken from the end)
+	PMEMNodes                                          int   // number of CPU-less nodes bigger than DRAM average
+	HBMNodes                                           int   // number of CPU-less nodes smaller than DRAM average
+	MemlessNodes                                       int   // CPU nodes without memory
+	MovableOnly                                        int   // number of special nodes with only movable memory
+	Hybrid                                             bool  // last half of cores of each package are E-cores (no HT)
+	FreqClasses                                        bool  // vary cpufreq / EPP to produce priority classes
+	DRAMMB                                             []int // per-node DRAM size in MiB (cycled); default 4096
+	Asymmetric                                         bool  // asymmetric capacities
+	LegacyNames                                        bool  // only the deprecated topology attribute names (thread_siblings_list, core_siblings_list)
 }
 
 func cpulist(ids []int) string {
@@ -160,9 +162,12 @@ func Generate(name string, p Params) *Machine {
 		p.L2Cluster = 1
 	}
 	m := &Machine{Name: name, Packages: p.Packages, Dies: p.Dies, NodesPer: p.NodesPerDie,
-		Cores: p.CoresPerNode, Threads: p.Threads, Hybrid: p.Hybrid, Interleaved: p.Interleaved}
+		Cores: p.CoresPerNode, Threads: p.Threads, Hybrid: p.Hybrid, Interleaved: p.Interleaved, LegacyNames: p.LegacyNames}
 
-	type coreT struct{ pkg, die, node, coreInPkg, cluster int; ecore bool }
+	type coreT struct {
+		pkg, die, node, coreInPkg, cluster int
+		ecore                              bool
+	}
 	var cores []coreT
 	nodeID := 0
 	for pk := 0; pk < p.Packages; pk++ {
@@ -438,6 +443,7 @@ func Random(r *RNG, name string, maxCPUs int) *Machine {
 		if r.Chance(1, 4) {
 			p.OfflineCPUs = r.Intn(n/4 + 1)
 		}
+		p.LegacyNames = r.Chance(1, 6)
 		if r.Chance(1, 3) {
 			p.IsolatedCPUs = r.Intn(n/3 + 1)
 		}
@@ -520,13 +526,24 @@ func (m *Machine) Write(root string) error {
 		files[filepath.Join(d, "topology/die_id")] = strconv.Itoa(c.Die)
 		files[filepath.Join(d, "topology/cluster_id")] = strconv.Itoa(c.Cluster)
 		files[filepath.Join(d, "topology/core_id")] = strconv.Itoa(c.Core)
-		files[filepath.Join(d, "topology/core_cpus_list")] = cpulist(c.Threads)
 		files[filepath.Join(d, "topology/thread_siblings_list")] = cpulist(c.Threads)
+		if m.LegacyNames {
+			// old name of the package CPU list; the new names (core_cpus_list, package_cpus_list) do not exist
+			var pk []int
+			for _, o := range m.CPUs {
+				if o.Online && o.Pkg == c.Pkg {
+					pk = append(pk, o.ID)
+				}
+			}
+			files[filepath.Join(d, "topology/core_siblings_list")] = cpulist(pk)
+		} else {
+			files[filepath.Join(d, "topology/core_cpus_list")] = cpulist(c.Threads)
+		}
 		type ce struct {
-			lvl        int
-			typ, size  string
-			id         int
-			shared     []int
+			lvl       int
+			typ, size string
+			id        int
+			shared    []int
 		}
 		caches := []ce{
 			{1, "Data", "32K", c.Pkg*1000 + c.Core, c.Threads},
